@@ -10,6 +10,7 @@ PROP = {
              "Unit TestCrossFlowWalk: a host flow that incorporates a guard flow (1-3 request Filters with conditional exits and an optional answering processor, 1-2 response Filters) in front of its own 1-2 request Filters "
              "(optional answering processor) and behind its own 1-2 response Filters; in one case of three (hosts without an answering processor) 1-2 further connections leave 'flow Guard at end' for processors of their own - a fan-out directly behind the reference, whose branches run in the order written; non-trivial: the request path crosses from the guard into the host, or is answered"),
     "assumptions": [
+        "a third of the generated flows of TestGraphWalk list status codes in their filter (200, 201, 418 - the provider's 200 is one of them): a request the flow answers itself has no provider response, and the response path must be walked from the answering processor all the same",
         "unit TestSeveralMatchingFlows: two or three user flows whose filters all match the transaction (nested patterns h.com/*, h.com/g/*, h.com/g/x in any order of declaration, or one pattern twice), each a plain chain of 1-3 processors of which the last may answer. The request path of the transaction is every matching flow's chain, one flow after the other in the order read off the run; it ends at the first answer: no processor of a later flow runs on the request, the answer that reaches the client is the first one, every flow before the answering one ran its whole chain, and without an answer every matching flow ran",
         "cross-flow unit: in one case of three the host's response direction runs over the same processor keys as its request direction (same order, connections of its own): the two graphs stay apart; both graph units count a generated configuration that the loader refuses (none on the pinned tree) and go on - the unit is inconclusive if refusals exceed a tenth of the cases",
         "every case is built and run at a generated log level (off, error, debug, trace; output discarded): at an enabled level the log statements of the loader and the engine format their arguments, which is code that runs on the flow graph",
